@@ -17,7 +17,8 @@ THEOREMS['C01'] = ['FB.history_refines', 'FB.build_step', 'FB.build_step_valid',
                    'FB.follows_allHash', 'FB.hinv_init', 'FB.buildGo_refines', 'FB.first_build_refines', 'FB.run_refines', 'FB.replay_sound', 'FB.replay_simple_sound',
                    'FB.faithful_of_hash', 'FB.C01_subbuild_hit_transparent', 'FB.View.sim_answer', 'FB.run_keeps_claimed',
                    'FB.run_pending', 'FB.sim_bfFinish', 'FB.CacheOK.empty']
-THEOREMS['C05'] = ['FB.run_refines', 'FB.replay_sound', 'FB.C13_read_replay']
+THEOREMS['C05'] = ['FB.run_refines', 'FB.replay_sound', 'FB.C13_read_replay', 'FB.CreatedFiles.run_full', 'FB.CreatedFiles.started_full',
+                   'FB.CreatedFiles.finished_full', 'FB.CreatedFiles.error_full', 'FB.CreatedFiles.hasDir_iff']
 THEOREMS['C06'] = ['FB.C06_changed_invalidates', 'FB.C06_changed_invalidatesL', 'FB.C06_lookup_tests_version',
                    'FB.C06_equal_versions_pass']
 THEOREMS['C08'] = ['FB.C08_dup_file_rejected', 'FB.C08_dup_file_no_effect', 'FB.C08_dup_sub_no_effect',
@@ -293,7 +294,34 @@ def check_C04(tier):
     # query-dense programs, plus call-dense ones (what a later build sees depends on what earlier ones recorded)
     return run_hist_prop('C04', tier, 4, 500, 20000, prof=QUERY_DENSE,
                          extra_cases=lambda t, ds: random_cases(t, 400, 15000, 104, dirsize=ds))
-def check_C05(tier): return run_hist_prop('C05', tier, 5, 700, 40000, p_fail=0.05, p_clean=0.03, min_builds=3, max_builds=6)
+def datastructure_tie(prop, tier, rep, salt=0):
+    """created_files.py against FB.CreatedFiles, state by state (a disagreement is a broken correspondence; the
+    history exploration that follows is the search for a failing input)"""
+    from . import cfcheck
+    probs = cfcheck.run(tier, rep, salt)
+    rep.count('correspondence_disagreements_createdfiles', len(probs))
+    return probs
+
+
+def check_C05(tier):
+    rep = core.Report('C05', tier)
+    gate = core.proof_gate(THEOREMS['C05'], tier)
+    ds = measure()
+    probs = datastructure_tie('C05', tier, rep)
+    cases = corpus_cases(ds)
+    cases += gen.gen_scenario_cases(core.seed() * 31 + 5, budget(tier, 25, 600), ds, gen.SCENARIOS)
+    cases += random_cases(tier, 700, 40000, 5, dirsize=ds, p_fail=0.05, p_clean=0.03, min_builds=3, max_builds=6)
+    for i, c in enumerate(cases):
+        if not str(c.get('seed', '')).startswith('corpus:') and i % 4 == 0:
+            c['spell'] = core.seed() * 7919 + i
+    explore('C05', tier, rep, cases)
+    if probs and not rep.violations:
+        p = probs[0]
+        rep.violation('createdfiles_tie', {'property': 'C05', 'kind': 'correspondence-broken',
+                                           'no_longer_checks': 'FB.CreatedFiles (run_full: the overlay of created files is exact) describes created_files.py',
+                                           'commands': p['cmds'], 'real': p['real'], 'model': p['model']},
+                      note='created_files.py and FB.CreatedFiles differ after %s' % json.dumps(p['cmds'][-1]), no_input=True)
+    return finish('C05', rep, gate)
 
 
 def check_C06(tier):
